@@ -29,7 +29,7 @@ def call(op, s, b):
     import dsw
     f = {'add': dsw.calculus_addition, 'sub': dsw.calculus_subtraction, 'mul': dsw.calculus_multiplication,
          'div': dsw.calculus_division}[op]
-    return brun(f, number=s, base=str(b), lim=200000)
+    return brun(f, number=s, base=str(b), lim=2000000)
 
 
 def check_one(r, op, s, b, n=None):
@@ -155,8 +155,8 @@ def long_family(ms, full):
     for m in ms:
         for a in A_:
             for b in B_:
-                yield a + '9' * m + b
-                yield a + '0' * m + b
+                for d in ('0123456789' if full else '09'):
+                    yield a + d * m + b
         for d in '123456789':
             yield d * m
         yield '1' + '0' * m
@@ -184,6 +184,20 @@ def _w_long(chunk):
     return r
 
 
+def _w_huge(args):
+    r = core.Res()
+    d, n = args
+    for s in (d * n, '1' + '0' * (n - 2) + d, '9' * (n - 1) + d):
+        v = int(s)
+        for b in range(10):
+            for op in OPS:
+                check_one(r, op, s, b, v)
+        r.states += 1
+        r.nontriv += 1
+        r.maxi('digits', len(s))
+    return r
+
+
 def run(ctx):
     from ..observe import install
     import dsw
@@ -200,6 +214,8 @@ def run(ctx):
     else:
         chunks = [([m], True) for m in range(1, 1301)]
     ctx.pmap(_w_long, chunks)
+    # of any length: beyond 4300 digits (the interpreter's int<->str conversion limit) too
+    ctx.pmap(_w_huge, [(d, n) for d in '19375' for n in (4299, 4300, 4301, 4400, 9000)])
     ctx.cov['model_transitions_reachable'] = len(model)
     ctx.cov['model_transitions_exercised_by_inputs_below_1000'] = len(hit)
     ctx.guard('every reachable transducer transition exercised', len(hit) == len(model))
